@@ -1,4 +1,4 @@
-HOOK_COMMITS = ["341cf12", "11958cd", "a42f779", "36abb38", "cf8069d", "bc0d863", "66898da"]
+HOOK_COMMITS = ["341cf12", "11958cd", "a42f779", "36abb38", "cf8069d", "bc0d863", "66898da", "35ac2b3"]
 NOTES = ("Verdicts come only from property monitors evaluated by TLC on events recorded from the real code; a "
          "conformance divergence between code and specification is reported in the evidence but is never a violation. "
          "Fix commits in /repo: 00358e6 (F7), c768102 (F1), 92c7e00 (F5), 905c7fb (F2), 18b399f (F4); known findings F6, F8; see known_findings.json.")
@@ -34,8 +34,10 @@ CHECKS.update({
                     "with zeros (earliest) or with the sampled high seqno (latest, nothing stored for the assignment), and its end with "
                     "the dcp mode (infinite / finite = sampled high); Core.tla is model-checked against it in the finite+latest, "
                     "fault and save-protocol configurations (stores written by earlier sessions, crashes, flushes, partial loads); the "
-                    "real code runs TLC-generated schedules and the monitor is re-evaluated on its traces.",
-            "ref": "6/C02", "note": _A + "; the 64-bit round trip through the Couchbase xattr / file / read-only backends is not yet covered (rig B)",
+                    "real code runs TLC-generated schedules and the monitor is re-evaluated on its traces. Read-only metadata mode is a constant of "
+                    "Core.tla (the wrapped backend: saves return at once, nothing is written, loads pass through): any StoreWrite observed in "
+                    "that mode is a C02 violation, loads are compared with the store as in every mode.",
+            "ref": "6/C02", "note": _A + "; the 64-bit round trip through the Couchbase xattr / file backends is not covered (the fake backend stores what it is given)",
             "technique": _T},
     "C03": {"text": "Core.tla lets the SERVER choose every next event (snapshot layouts, mutation/deletion/expiration, system, "
                     "seqno-advanced, key classes incl. reserved prefixes, events before skipUntil, rollback on open, crash and "
@@ -63,11 +65,14 @@ CHECKS.update({
                     "under weak fairness. TLC-generated behaviours (random, groups of 4 and 8; BFS witnesses of named situations such as a CAS retry "
                     "or a same-size membership change) are executed on groups of REAL couchbase.NewCBMembership instances over real couchbase.NewClient "
                     "connections to a simulated Couchbase node (harness/simnode), every key-value request of a monitor round held and released per "
-                    "instance; MonMember.tla (TLC) judges the recorded announcements.",
+                    "instance. MemberSD.tla models the leader-assigned variant (service-discovery heart-beat and monitor loops of every instance on a "
+                    "unit clock, lease acquisition and the election callbacks in any order, silent deaths): leader = 1, followers 2.. in join order; "
+                    "its behaviours run on groups of real servicediscovery objects with their real 5-second loops under testing/synctest. "
+                    "MonMember.tla (TLC) judges the recorded announcements of both.",
             "ref": "6/C10", "note": "real cbMembership + real client + gocbcore against a simulated node; time modelled by ageing documents on the "
-                    "server; joins are atomic w.r.t. other instances (the property separates joins by quiet periods). The static and dynamic "
-                    "mechanisms hold their numbering by construction (configuration / last API request) and the leader-assigned (Kubernetes) "
-                    "variant needs pod-to-pod RPC on one port per pod: see DESIGN 0.6", "technique": _T},
+                    "server; joins are atomic w.r.t. other instances (the property separates joins by quiet periods). Leader-assigned variant: the net/rpc transport "
+                    "is replaced by direct calls into the peer's real rpc Handler, the Kubernetes lease is the environment. The static and dynamic "
+                    "mechanisms hold their numbering by construction (configuration / last API request) and are not modelled", "technique": _T},
     "C17": {"text": "Config.tla transcribes ApplyDefaults helper by helper as a sequential process over an options record (unset = Go zero value) "
                     "and TLC checks, from every configuration of the family (nothing / everything / every single option / every pair of options set, "
                     "to the default value itself or another value, x environment overrides), that defaults fill, explicit values survive, the "
@@ -94,7 +99,8 @@ CHECKS.update({
                     "counter must show (tracked position and its snapshot, lag = max(0, high - seq) against the high seqnos handed to that "
                     "scrape, total lag, accepted mutations/deletions/expirations, member / group size / range of the session, active "
                     "streams, completed rebalances); TLC checks Core against it exhaustively and on the metrics the REAL "
-                    "metric.NewMetricCollector(...).Collect returned in TLC-generated schedules.",
+                    "metric.NewMetricCollector(...).Collect returned in TLC-generated schedules. The event handler of the rig also scrapes from "
+                    "inside every lifecycle callback (HookScrapes): such a scrape must return and must not crash.",
             "ref": "6/C16", "note": _A + "; the HTTP layer (/metrics route, /states/offset) is not exercised, the collector is called directly",
             "technique": _T},
     "C18": {"text": "Version.tla transcribes Higher/Equal/Lower, the parser over field structures and the three gates; TLC checks "
